@@ -176,6 +176,7 @@ func (p *Program) genOnce(fn *ssa.Function, key string, opts GenOpts, pre map[st
 	fr = &Frame{vc: vc, fn: fn, fc: fc, regs: map[ssa.Value]Val{}, oblFn: key, closures: map[string]*closureRec{}, pathCond: "true"}
 	if fc != nil {
 		fr.nopanic = fc.NoPanic
+		fr.view = fc.Opts["view"]
 		fr.trackAlloc = fc.Opts["track-alloc"] != ""
 	}
 	fr.lockOnly = opts.LockOnly
@@ -212,7 +213,7 @@ func (p *Program) genOnce(fn *ssa.Function, key string, opts GenOpts, pre map[st
 	}
 	env := &Env{vc: vc, st: st, old: st, vars: vars, pkg: pkg}
 	if fc != nil && !opts.LockOnly {
-		for _, c := range fc.Requires {
+		for _, c := range clausesFor(fc.Requires, "") {
 			t, e := env.EvalBool(c.E)
 			if e != nil {
 				fr.specError(c, e)
@@ -254,7 +255,7 @@ func (p *Program) genOnce(fn *ssa.Function, key string, opts GenOpts, pre map[st
 		}
 		bindResults(pvars, rnames, res.results)
 		penv := &Env{vc: vc, st: res.st, old: entry, vars: pvars, pkg: pkg}
-		for _, c := range fc.Ensures {
+		for _, c := range clausesFor(fc.Ensures, "") {
 			for _, part := range splitConj(c.E) {
 				t, e := penv.EvalBool(part)
 				if e != nil {
